@@ -7,6 +7,7 @@ import MiniconfVerif.Props.C11
 #print axioms MiniconfVerif.C11.depth_limited_items
 #print axioms MiniconfVerif.C11.targets_do_not_panic
 #print axioms MiniconfVerif.C11.rooted_exact
+#print axioms MiniconfVerif.C11.rooted_limited_exact
 #print axioms MiniconfVerif.C11.exactCounts_finished
 #print axioms MiniconfVerif.C11.exactCounts_items
 #print axioms MiniconfVerif.C11.exact_size_remaining
